@@ -248,6 +248,12 @@ V_HARNESS(h_mux_sliced)
   in_bytes(buf, BUF); memcpy(orig, buf, BUF);
   in_bytes(padj, NL); tix = in_u8();
   if (FIXED) di = 0x10 | (di & 15); else if (di >= 0x10 && di <= 0x1F) di |= 0x80;   /* class by grid, value symbolic */
+#ifdef DI
+  di = DI;            /* round-trip mode: concrete (must agree with FIXED) */
+#endif
+#ifdef STUFF
+  stuffing = STUFF;
+#endif
 
   p = buf; left = BUF; s = sl; sleft = NL;
   ok = vbi_dvb_multiplex_sliced(&p, &left, &s, &sleft, mask, di, stuffing);
@@ -411,6 +417,9 @@ static void in_config(unsigned *pid, unsigned *di)
   *pid = in_u16() & 0x1FFF; *di = in_u8();
   if (*pid < 0x10) *pid += 0x10; else if (*pid == 0x1FFF) *pid = 0x1FFE;      /* all legal PIDs 0x10..0x1FFE */
   *di = FIXED ? (0x10 | (*di & 15)) : (*di & 2) ? 0x9B : (0x99 + (*di & 1));  /* all legal data_identifiers of the class */
+#ifdef DI
+  *di = DI;
+#endif
 }
 
 /* gather the PES packet from the recorded output starting at rec[from]; returns its size (0 = none) */
